@@ -46,7 +46,7 @@ def tp_args(cfg):
     if cfg['ck'] == 'int':
         args['fire_count'] = str(cfg['cv'])
     elif cfg['ck'] == 'bad':
-        args['fire_count'] = 'x1'
+        args['fire_count'] = 'soon'       # the SAME unparsable text as for the period: each falls back to its OWN default
     if cfg['pk'] == 'int':
         args['fire_period'] = str(cfg['pv'] * R.TICK_MS)
     elif cfg['pk'] == 'bad':
